@@ -1770,6 +1770,10 @@ def _g1_params():
             two = g.endswith("2")
             if kind == "lapack" and not two and o not in ("simple_bond_then_squeeze", "contract_compressed", "canonize_between"):
                 continue            # several SVD contracts on three / four tensors: beyond the certificate budget
+            if o == "compress_all" and g != "one2":
+                continue            # multibonds: see compress_all_gauges_multibond (own obligation)
+            if (g, o) == ("onemulti3", "simple_bond_then_squeeze"):
+                continue
             quick = (kind == "free" and g in ("one3", "oneone2", "onemulti3", "one2")) or \
                     (g, o) in {("one2", "simple_bond_then_squeeze"), ("one2", "compress_all"), ("oneone2", "compress_all_simple"),
                                ("one2", "gauge_all_simple"), ("onemulti2", "compress_between"), ("one2", "canonize_between"),
@@ -1880,6 +1884,26 @@ def gauged_size1_bonds(mk, geom, op):
         mk.same(f"{lab}: at most one label joins A and B, none of size 1", (len(sh) <= 1, [ix for ix in sh if t2.ind_size(ix) == 1]), (True, []))
 
 
+@obligation(PROP, params=[{"geom": g} for g in ("oneone2", "onemulti2", "multi")], tiers=_T, rounds=2, wall_s=200, timeout_s=280,
+            max_rows=15000, exc_is_violation=True, allow_exc=(P.Unsupported,))
+def compress_all_gauges_multibond(mk, geom):
+    """compress_all(..., gauges=dict) (the option is forwarded to every compress_between / tensor_compress_bond,
+    which document it) on a network with a multibond: compress_all fuses the multibonds first - the gauge
+    dictionary must follow (as fuse_multibonds(gauges=) / compress_between(gauges=) do)"""
+    mk.encodes(tc.TensorNetwork.compress_all, tc.TensorNetwork.fuse_multibonds, tc.TensorNetwork._compress_between_tids, tc.tensor_multifuse)
+    tn, sizes, out = build(mk, geom, kind="real")
+    inner = [ix for ix in tn.ind_map if ix not in out]
+    gauges = _gauges_for(mk, tn, inner)
+    want = dense_gauged(tn, out, gauges)
+    g2 = dict(gauges)
+    t2 = tn.compress_all(cutoff=0.0, canonize=False, gauges=g2, gauge_smudge=0.0)
+    lab = f"compress_all(cutoff=0.0, canonize=False, gauges on {inner})"
+    keys_ok = set(g2) <= set(t2.ind_map)
+    mk.same(f"{lab}: remaining gauge keys are labels of the network", keys_ok, True)
+    mk.eq(f"{lab}: (network, gauges) denotes the same tensor",
+          dense_gauged(t2, out, {k: v for k, v in g2.items() if k in t2.ind_map and len(v) == t2.ind_size(k)}), want)
+
+
 # ====================================================================== N. requested outputs that are also bonds (hyper outputs)
 
 # networks on which each pass FIRES and a requested output label is at the same time a bond: shared by exactly the two
@@ -1923,7 +1947,7 @@ _HO_FIRES = {
 }
 _HO_QUICK = {("R", "ho_pair"), ("R", "ho_chain"), ("R", "ho_loop"), ("D", "ho_diag"), ("D", "ho_diag2"), ("D", "ho_copy"), ("A", "ho_anti"),
              ("A", "ho_anti2"), ("C", "ho_col"), ("C", "ho_col0"), ("S", "ho_pair"), ("P", "ho_pair"), ("P", "ho_multi"), ("P", "ho_only"),
-             ("P", "ho_pair3"), ("L", "ho_loop"), ("L", "ho_loop2"), ("F:ADCR", "ho_diag"), ("F:ADCR", "ho_copy"), ("F:ADCRP", "ho_pair"),
+             ("L", "ho_loop"), ("L", "ho_loop2"), ("F:ADCR", "ho_diag"), ("F:ADCR", "ho_copy"), ("F:ADCRP", "ho_pair"),
              ("F:P", "ho_multi"), ("F:PR", "ho_pair"), ("F:RPL", "ho_loop"), ("F:DP", "ho_diag2"), ("F:L", "ho_loop"),
              ("compress_simplify", "ho_pair"), ("compress_simplify", "ho_diag"), ("R", "ho_only")}
 
